@@ -164,3 +164,30 @@ def rule_order(prog):
 
 def run_all(prog):
     return [rule_release(prog), rule_rec(prog), rule_order(prog)]
+
+
+def rule_delay_reset(prog):
+    """R-DM-DELAY (C19): the recorded delay of an event counts from the previous recorded event: add_event resets
+    current_delay on every path, also for the first event of a recording (which has no pending predecessor). If the
+    reset only happens when a pending event was saved, the first key of the recording carries all the ticks since
+    recording started - a 50 ms tap is replayed as a hold."""
+    from kq.core import is_const, proj
+    from kq.gf2 import root_desc
+    res = RuleResult("R-DM-DELAY", "add_event resets current_delay on every path", floor=1)
+    f = prog.fn_opt("kanata_state_machine::kanata::dynamic_macro::DynamicMacroRecordState::add_event")
+    if f is None:
+        res.viol("anchor", "src/kanata/dynamic_macro.rs", "DynamicMacroRecordState::add_event not found")
+        return res
+    res.fn(f)
+    resets = [bi for bi, si, st in f.all_rvalues() if proj(st["p"]) and (root_desc(f, st["p"]) or "").endswith(".current_delay")
+              and st["rv"]["k"] == "use" and is_const(st["rv"]["a"]) and st["rv"]["a"]["c"].get("v") == 0]
+    rets = set(f.return_blocks())
+    ok = bool(resets) and not (f.reach_from(0, avoid=resets) & rets)
+    res.inst("reset-on-every-path", where=f.loc, resets=len(resets), ok=ok)
+    res.oblige(ok)
+    if not ok:
+        res.viol("reset-on-every-path", f.loc,
+                 "add_event can return without setting current_delay to 0 (the reset only happens when a pending event was saved): the next "
+                 "recorded event - the first one of a recording - carries the ticks accumulated before it, so its replay is delayed / a "
+                 "tap becomes a hold")
+    return res
